@@ -59,7 +59,8 @@ def memsFull (size : Nat) : List Mem := memShapes allBases allIdxs [1, 2, 4, 8] 
 def memsKey (size : Nat) : List Mem := memShapes keyBases keyIdxs [1, 2, 8] dispFew [false] size ++
   memShapes [some 3, some 5, some 9] [none, some 6, some 13] [4] [0, 0x44] [true] size
 def memsMid (size : Nat) : List Mem := memShapes [none, some 0, some 4, some 5, some 12, some 13] [none, some 1, some 13] [1, 4] [0, 8, -0x81] [false] size ++
-  memShapes [some 3, some 13] [none, some 6] [2] [0x44] [true] size
+  memShapes [some 3, some 13] [none, some 6, some 9] [2] [0x44] [true] size ++
+  memShapes [some 0] [some 13] [1, 8] [0] [true] size       -- extended 32-bit index registers (REX.X / VEX.X with 0x67)
 /-- a stack pointer written as the second register: `[base+rsp]`, `[base+rsp+disp]` (the NASM index/base swap; with
     the STRICT swap option the documented literal encoding applies instead — not judged there) -/
 def memsSwap (size : Nat) : List Mem :=
